@@ -2,6 +2,7 @@ package props
 
 import (
 	"crypto/ecdsa"
+	cryptorand "crypto/rand"
 	"crypto/elliptic"
 	"encoding/binary"
 	"fmt"
@@ -23,7 +24,7 @@ func init() {
 	register(&mon.Prop{
 		ID:    "C16",
 		Level: "exploration",
-		Rule: "keys: the committed pool (Ed25519, secp256k1, P-256, P-384, P-521, RSA-2048/3072/4096/8192 - 8192 bits is the largest RSA key libp2p accepts) + freshly generated keys of every non-RSA algorithm (RSA fresh in thorough). Per key: FromPubKey -> String -> Parse -> == and PubKey().Equals; DID equality vs key equality over all pairs; ~40 alternative encodings of its key material under the right multicodec (uncompressed / hybrid / wrong-prefix / off-curve / padded / truncated points, wrong-length raw keys, RSA as PKIX, non-minimal DER, trailing bytes), non-minimal multicodec varints, other multibase prefixes, case and whitespace changes, bad base58 characters, unsupported codecs; plus random strings. " +
+		Rule: "keys: the committed pool (Ed25519, secp256k1, P-256, P-384, P-521, RSA-2048/3072/4096/8192 - 8192 bits is the largest RSA key libp2p accepts) + freshly generated keys of every non-RSA algorithm (RSA fresh in thorough) + ECDSA-typed keys on the secp256k1 curve (coerced by FromPubKey), selected so that several have an X or Y coordinate with leading zero bytes. Per key: FromPubKey -> String -> Parse -> == and PubKey().Equals; DID equality vs key equality over all pairs; ~40 alternative encodings of its key material under the right multicodec (uncompressed / hybrid / wrong-prefix / off-curve / padded / truncated points, wrong-length raw keys, RSA as PKIX, non-minimal DER, trailing bytes), non-minimal multicodec varints, other multibase prefixes, case and whitespace changes, bad base58 characters, unsupported codecs; plus random strings. " +
 			"Oracle: every accepted identifier from which a key can be extracted must be FromPubKey(key).String() (one principal, one DID); non-base58btc / non-did:key / unsupported-codec strings rejected; PubKey() returns a key or an error (a panic is caught and reported). " +
 			"non-trivial = alternative encoding or pair of different keys; distinct = the identifier string.",
 		Assumptions: []string{
@@ -35,7 +36,7 @@ func init() {
 		MinEvals:    floor(8000, 150000),
 		MinDistinct: floor(2000, 40000),
 		RequiredCells: func(string) []string {
-			cells := []string{"pairs/equal", "pairs/different", "alt/accepted-canonical", "alt/rejected-by-parse", "alt/rejected-by-pubkey", "string/rejected", "multibase/other", "codec/unsupported", "varint/non-minimal"}
+			cells := []string{"coerced-secp256k1/normal", "coerced-secp256k1/short-coordinate", "pairs/equal", "pairs/different", "alt/accepted-canonical", "alt/rejected-by-parse", "alt/rejected-by-pubkey", "string/rejected", "multibase/other", "codec/unsupported", "varint/non-minimal"}
 			for _, a := range []string{"ed25519", "secp256k1", "p256", "p384", "p521", "rsa2048", "rsa3072", "rsa4096", "rsa8192"} {
 				cells = append(cells, "roundtrip/"+a)
 			}
@@ -312,6 +313,54 @@ func runC16(w *mon.W) {
 		}
 	}
 
+	// ECDSA-typed keys on the secp256k1 curve are coerced to the secp256k1 key type by
+	// FromPubKey; coordinates with leading zero bytes (1 key in 64) are the delicate ones
+	{
+		normal, short := 0, 0
+		for i := 0; i < w.Pick(1500, 6000) && (short < w.Pick(6, 40) || normal < 20); i++ {
+			sk, err := ecdsa.GenerateKey(secp.S256(), cryptorand.Reader)
+			if err != nil {
+				break
+			}
+			isShort := len(sk.X.Bytes()) < 32 || len(sk.Y.Bytes()) < 32
+			if (isShort && short >= w.Pick(6, 40)) || (!isShort && normal >= 20) {
+				continue
+			}
+			priv, pub, err := crypto.ECDSAKeyPairFromKey(sk)
+			if err != nil {
+				continue
+			}
+			cell := "coerced-secp256k1/normal"
+			if isShort {
+				short++
+				cell = "coerced-secp256k1/short-coordinate"
+			} else {
+				normal++
+			}
+			w.Cover(cell)
+			d, err := did.FromPubKey(pub)
+			w.Eval(1)
+			c := map[string]any{"x": sk.X.Text(16), "y": sk.Y.Text(16), "x_bytes": len(sk.X.Bytes()), "y_bytes": len(sk.Y.Bytes())}
+			if err != nil {
+				w.Violate("frompubkey-fails/ecdsa-on-secp256k1/"+cell[18:], fmt.Sprintf("did.FromPubKey fails on an ECDSA key over the secp256k1 curve (X %d bytes, Y %d bytes): %v", len(sk.X.Bytes()), len(sk.Y.Bytes()), err), c)
+				continue
+			}
+			// the native secp256k1 key with the same point must give the same DID
+			var xb, yb [32]byte
+			sk.X.FillBytes(xb[:])
+			sk.Y.FillBytes(yb[:])
+			nat, err := secp.ParsePubKey(append(append([]byte{4}, xb[:]...), yb[:]...))
+			if err == nil {
+				np := crypto.Secp256k1PublicKey(*nat)
+				nd, err := did.FromPubKey(&np)
+				if err != nil || nd != d {
+					w.Violate("coerced-did-differs", fmt.Sprintf("the DID of an ECDSA key on secp256k1 (%s) differs from the DID of the same point as a secp256k1 key (%s, err=%v)", d, nd, err), c)
+				}
+			}
+			keys = append(keys, &gen.Principal{Name: fmt.Sprintf("coerced-secp256k1-%d", i), Alg: "secp256k1", Priv: priv, Pub: pubOf(d, pub), DID: d})
+		}
+	}
+
 	for _, p := range keys {
 		// 1. round trip
 		d, err := did.FromPubKey(p.Pub)
@@ -453,4 +502,12 @@ func c16RejectOnly(w *mon.W, kind, s string) {
 		return
 	}
 	w.Cover("string/rejected")
+}
+
+// pubOf returns the key PubKey() extracts from d (the coerced key's canonical form), or pub.
+func pubOf(d did.DID, pub crypto.PubKey) crypto.PubKey {
+	if k, err := d.PubKey(); err == nil {
+		return k
+	}
+	return pub
 }
